@@ -62,6 +62,9 @@ class Run(object):
         return sum(1 for o in self.obligations if o["rule"].startswith(rule_prefix))
 
     def require_min(self, rule_prefix, n):
+        # the guard is against vacuous passes: a rule that already reports a violation is not vacuous
+        if any(o["rule"].startswith(rule_prefix) and o["status"] == "violation" for o in self.obligations):
+            return
         c = self.count(rule_prefix)
         if c < n:
             raise AnalysisError(
